@@ -84,6 +84,14 @@ def _raises_on_return_code(fn: FuncInfo) -> bool:
     def is_rc(k):
         return (isinstance(k, ast.Name) and k.id in rc_names) or (isinstance(k, ast.Constant) and k.value == "return_code")
 
+    # inverted form: `if not <rc>: return ...` (or `== 0`) and everything after it in the function always raises
+    body = fn.node.body
+    for i, st in enumerate(body):
+        if isinstance(st, ast.If) and not st.orelse and st.body and isinstance(st.body[-1], ast.Return):
+            t = st.test
+            zero = (isinstance(t, ast.UnaryOp) and isinstance(t.op, ast.Not) and any(is_rc(k) for k in ast.walk(t.operand)) and isinstance(t.operand, (ast.Name, ast.Subscript))) or (isinstance(t, ast.Compare) and len(t.ops) == 1 and isinstance(t.ops[0], ast.Eq) and any(is_rc(k) for k in ast.walk(t.left)) and isinstance(t.comparators[0], ast.Constant) and t.comparators[0].value == 0)
+            if zero and always_raises(body[i + 1 :]):
+                return True
     for g, extra in rejecting_guards(fn.node, is_rc):
         if extra:
             continue
@@ -240,7 +248,10 @@ def check_c27(A: Analysis, col: Collector):
         for c_ in [n for n in ast.walk(l) if isinstance(n, ast.Continue)]:
             g = next((p_ for p_ in parents(c_) if isinstance(p_, ast.If)), None)
             reads_field = g is not None and any(isinstance(k, ast.Attribute) and isinstance(k.value, ast.Name) and k.value.id == fvar for k in ast.walk(g.test))
-            if g is not None and not reads_field and isinstance(g.test, ast.UnaryOp) and isinstance(g.test.op, ast.Not):
+            type_skip = g is not None and isinstance(g.test, ast.UnaryOp) and isinstance(g.test.op, ast.Not) and isinstance(g.test.operand, ast.Call) and isinstance(g.test.operand.func, ast.Attribute) and g.test.operand.func.attr == "contains_type" and any(isinstance(k, ast.Name) and k.id == "FileSet" for k in ast.walk(g.test.operand))
+            if type_skip:
+                col.ok("C27.modes", f"the field loop skips fields whose type holds no FileSet (`{norm(g.test, 60)}`)", A.loc(c_))
+            elif g is not None and not reads_field and isinstance(g.test, ast.UnaryOp) and isinstance(g.test.op, ast.Not):
                 col.ok("C27.modes", f"the field loop skips a field only when its value is unset (`{norm(g.test)}`)", A.loc(c_))
             else:
                 col.fail("C27.modes", gb.qualname, f"file-field-skipped:{shape(g.test, 40) if g is not None else 'unconditional'}", f"`continue` under `{norm(g.test, 60) if g is not None else 'no condition'}` leaves file-typed fields with a value without a bind mount (and without a remapped path): a file that another field's argstr / formatter refers to is not visible inside the container", A.loc(c_))
